@@ -1,0 +1,35 @@
+//go:build verif
+
+package gowarc
+
+import "io"
+
+// VerifHook is called at every marked point when the package is built with the "verif" tag.
+// It only tells WHERE a goroutine is; it may block (to steer the schedule) or record the point.
+var VerifHook func(point string)
+
+func verifAt(point string) {
+	if h := VerifHook; h != nil {
+		h(point)
+	}
+}
+
+type verifWriter struct{ w io.Writer }
+
+// Write forwards the bytes in two halves so that a simulated crash can fall inside a write.
+func (v verifWriter) Write(p []byte) (int, error) {
+	verifAt("fs:write")
+	if len(p) < 2 {
+		return v.w.Write(p)
+	}
+	h := len(p) / 2
+	n, err := v.w.Write(p[:h])
+	if err != nil {
+		return n, err
+	}
+	verifAt("fs:write-mid")
+	m, err := v.w.Write(p[h:])
+	return n + m, err
+}
+
+func verifWrap(w io.Writer) io.Writer { return verifWriter{w} }
